@@ -12,6 +12,7 @@ import (
 	"strconv"
 	"strings"
 	"sync"
+	"sync/atomic"
 	"time"
 
 	"a0verif/instr"
@@ -92,7 +93,8 @@ type schedOut struct {
 type c12Engine struct {
 	e       *Env
 	bin     string
-	binCold string // "" if the pre-init seam is unavailable on this tree (C07's business, not C12's)
+	binCold string
+	noCold  int32 // set (atomically) once a pre-init worker reports that the seam is unavailable on this tree (C07's business, not C12's)
 	solo    *Solo
 	sites   map[int]instr.Site
 	mod     string // module path of the code under test
@@ -205,12 +207,14 @@ func (g *c12Engine) runPlan(sp *schedPlan, env ...string) (*schedOut, *schedVerd
 	racePath := filepath.Join(d, "race")
 	env = append([]string{"GORACE=halt_on_error=1 exitcode=66 atexit_sleep_ms=0 log_path=" + racePath, "GOMAXPROCS=4"}, env...)
 	bin := g.bin
-	if sp.Preinit && g.binCold != "" {
+	cold := sp.Preinit && g.binCold != "" && atomic.LoadInt32(&g.noCold) == 0
+	if cold {
 		bin = g.binCold
 	}
 	p := g.e.RunProc(150*time.Second, env, d, bin, inP, outP)
-	if p.Exit == 4 && bin == g.binCold { // the tree's default source is not crypto/rand.Reader: hook configuration only
-		g.binCold = ""
+	if p.Exit == 4 && cold { // the tree's default source is not crypto/rand.Reader: hook configuration only
+		atomic.StoreInt32(&g.noCold, 1)
+		cold = false
 		p = g.e.RunProc(150*time.Second, env, d, g.bin, inP, outP)
 	}
 	switch {
@@ -266,7 +270,7 @@ func (g *c12Engine) runPlan(sp *schedPlan, env ...string) (*schedOut, *schedVerd
 			if got.Equal(want) {
 				continue
 			}
-			if op.K == "new" && sp.Preinit && bin == g.binCold && want.IsNil {
+			if op.K == "new" && cold && want.IsNil {
 				// default-configured process: the library may legitimately treat the OS reader specially
 				// (read ahead, buffer); what must hold is C07's conservation form, checked below
 				if !ref.Supported(op.Lang) || g.readAheadTolerated(sp, &out, t, k) {
@@ -852,7 +856,7 @@ func CheckC12(e *Env) (int, error) {
 				if len(sp.Shared) > 0 {
 					probes["runs_with_a_caller_buffer_shared_by_several_tasks"]++
 				}
-				if sp.Preinit && g.binCold != "" {
+				if sp.Preinit && g.binCold != "" && atomic.LoadInt32(&g.noCold) == 0 {
 					probes["runs_in_the_default_configured_process_preinit_seam"]++
 				}
 				if st.BlockedOnOnce > 0 {
